@@ -41,6 +41,63 @@ theorem ser_deser_same_field_keys (S : StrFns) (own : List Mapper) (fs : List Fl
       = lookupR (.fld f) (aggregate S false own fs ov camel) := by
   rw [agg_field_pointwise, agg_field_pointwise]
 
+/-! ### the process-wide cache is transparent, whatever was serialized before -/
+
+/-- every cache entry is the aggregate of the class / override / flag its key names.  `env` gives the
+    class of an id, `dec` the override of a `json.dumps` text (i.e. the dump is injective). -/
+def CacheOK (S : StrFns) (env : String → Cls) (dec : String → Option MDict) (cache : Cache) : Prop :=
+  ∀ e ∈ cache, e.2 = aggregate S true (env e.1.1).own (env e.1.1).fields (dec e.1.2.1) e.1.2.2
+
+/-- one call: the mapper handed out equals the freshly computed aggregate for *this* call's class,
+    override and `camel_case_convert`, and the cache stays coherent -/
+theorem cache_transparent (S : StrFns) (env : String → Cls) (dec : String → Option MDict)
+    (cache : Cache) (h : CacheOK S env dec cache) (cid ovKey : String) (camel : Bool) :
+    (cachedAggregate S cache cid ovKey (env cid).own (env cid).fields (dec ovKey) camel).1
+        = aggregate S true (env cid).own (env cid).fields (dec ovKey) camel
+    ∧ CacheOK S env dec
+        (cachedAggregate S cache cid ovKey (env cid).own (env cid).fields (dec ovKey) camel).2 := by
+  unfold cachedAggregate
+  cases hl : lookupR (cid, ovKey, camel) cache with
+  | some m =>
+    have hm := mem_of_lookupR _ _ cache hl
+    exact ⟨h _ hm, h⟩
+  | none =>
+    refine ⟨rfl, ?_⟩
+    intro e he
+    rcases List.mem_append.mp he with he | he
+    · exact h e he
+    · simp only [List.mem_singleton] at he
+      subst he
+      rfl
+
+/-- the mappers handed out along a history of calls -/
+def runHistory (S : StrFns) (env : String → Cls) (dec : String → Option MDict) :
+    Cache → List CacheKey → List MDict
+  | _, [] => []
+  | cache, (cid, ovKey, camel) :: rest =>
+    (cachedAggregate S cache cid ovKey (env cid).own (env cid).fields (dec ovKey) camel).1 ::
+      runHistory S env dec
+        (cachedAggregate S cache cid ovKey (env cid).own (env cid).fields (dec ovKey) camel).2 rest
+
+/-- **Any history.**  Whatever classes were serialized before, in whatever order and with whatever
+    flags, every call resolves exactly the mapper of its own class, override and
+    `camel_case_convert` — the cache never leaks one call's flag into another. -/
+theorem history_transparent (S : StrFns) (env : String → Cls) (dec : String → Option MDict) :
+    ∀ (calls : List CacheKey) (cache : Cache), CacheOK S env dec cache →
+      runHistory S env dec cache calls =
+        calls.map (fun k => aggregate S true (env k.1).own (env k.1).fields (dec k.2.1) k.2.2)
+  | [], _, _ => rfl
+  | (cid, ovKey, camel) :: rest, cache, h => by
+    have ht := cache_transparent S env dec cache h cid ovKey camel
+    simp only [runHistory, List.map_cons]
+    rw [ht.1, history_transparent S env dec rest _ ht.2]
+
+theorem history_transparent_from_empty (S : StrFns) (env : String → Cls) (dec : String → Option MDict)
+    (calls : List CacheKey) :
+    runHistory S env dec [] calls =
+      calls.map (fun k => aggregate S true (env k.1).own (env k.1).fields (dec k.2.1) k.2.2) :=
+  history_transparent S env dec calls [] (fun _ h => by cases h)
+
 /-! ### key-set law -/
 
 /-- One level: the key list of a serialized object is exactly the image of the populated fields under
